@@ -1,2 +1,9 @@
 #!/bin/sh
-exit 0
+# Offline build of the whole framework from files on disk: translator, full Coq
+# build (.vo), extraction + OCaml modelcheck, Go harness against /repo.
+set -e
+cd "$(dirname "$0")"
+unset GOTOOLCHAIN GOSUMDB
+export GOFLAGS=-mod=mod GOPROXY=off
+mkdir -p out evidence
+exec ./check --setup
